@@ -541,7 +541,17 @@ def make_case(r, kind):
         return {"stream": s, "bodies": bodies, "lines": lines, "judge": "python-re on the script's pattern", "unterm": unterm,
                 "last_labelled": last_lab, "modes": modes, "desc": "raw text stream"}
     big = kind == "big"
-    if kind in ("hdr", "big"):
+    if kind == "long":
+        # one long run of unpadded numbers across two changes of digit count (8..100, 95..1003): the header is a single range
+        # whose hosts pdsh's second pass over the target list prints one at a time
+        p = gen_prefix(r) or b"n"
+        lo, hi = r.choice([(8, 100), (1, 100), (95, 1003), (9, 101), (98, 1000), (7, 12)])
+        hosts = [p + b"%d" % n for n in range(lo, hi + 1)]
+        r.shuffle(hosts)
+        items, s, unterm = gen_stream(r, hosts, nbodies=1, plain=True)
+        modes = ["coalesce"]
+        desc = "one output for the %d hosts %d..%d" % (len(hosts), lo, hi)
+    elif kind in ("hdr", "big"):
         hosts = gen_hosts(r, big)
         items, s, unterm = gen_stream(r, hosts, nbodies=1, plain=True)
         modes = ["coalesce"]
@@ -614,7 +624,7 @@ def run(ctx):
     n_stream, n_raw, n_hdr, n_big = (260, 200, 1400, 40) if quick else (6000, 5000, 40000, 1200)
     cases = corpus_cases()
     ncorpus = len(cases)
-    plan = [("stream", n_stream), ("raw", n_raw), ("hdr", n_hdr), ("big", n_big)]
+    plan = [("stream", n_stream), ("raw", n_raw), ("hdr", n_hdr), ("big", n_big), ("long", 6 if quick else 60)]
     for kind, n in plan:
         for _ in range(n):
             c = make_case(r, kind)
